@@ -63,6 +63,9 @@ func (w *SimWriter) commit(code int) {
 	}
 	sort.Strings(keys)
 	for _, k := range keys {
+		if k == "Last-Modified" {
+			continue // http.ServeContent stamps the wall clock: not a simulated quantity
+		}
 		w.Snap = append(w.Snap, k+": "+strings.Join(w.hdr[k], ","))
 	}
 }
